@@ -186,6 +186,9 @@ def run_case(variant, case, name=None, nargs=None, budget=20.0):
     import signal
     import threading
     args = [resolve(variant, a) for a in case['args']]
+    for k, a in enumerate(case['args']):
+        if isinstance(a, tuple) and len(a) == 2 and a[0] == '__same_as__':
+            args[k] = args[a[1]]                       # the SAME array object: in-place call with the output aliasing an input
     if nargs is not None:
         args = args[:nargs]
     guard = threading.current_thread() is threading.main_thread()
@@ -437,6 +440,9 @@ def gen_splines(rng, n, kind):
             xs = np.clip(xs, sp['lo'], sp['hi'])
         cases.append({'module': mod, 'kernel': p + '_eval_spline_1d_vector', 'args': [xs, sp['knots'], sp['deg'], c1, np.full(len(xs), 7.25), der],
                       'tag': 'der=%d' % der, 'hint': cmax1 * gain(sp, der) * 4})
+        # in place in the strict sense: the output array is the array of points
+        cases.append({'module': mod, 'kernel': p + '_eval_spline_1d_vector', 'args': [xs.copy(), sp['knots'], sp['deg'], c1, ('__same_as__', 0), der],
+                      'tag': 'der=%d, output aliases the points' % der, 'hint': cmax1 * gain(sp, der) * 4})
         X = points(rng, sp, rng.randint(1, 5), outside=out_ok)
         Y = points(rng, sp2, rng.randint(1, 5), outside=out_ok)
         if not out_ok:
